@@ -1,17 +1,15 @@
-package props
+// Package gen holds generators and small helpers shared by the property packages.
+package gen
 
 import (
 	"math/big"
-	"os"
 	"sync"
-	"testing"
 	"time"
 
 	sdkmath "cosmossdk.io/math"
 	"pgregory.net/rapid"
 
 	"verifharness/chain"
-	"verifharness/pbt"
 )
 
 var (
@@ -19,32 +17,20 @@ var (
 	envDflt *chain.Env
 )
 
-// env returns the process-wide default K-driver environment.
-func env() *chain.Env {
+// Env returns the process-wide default K-driver environment (chain.Options{}).
+func Env() *chain.Env {
 	envOnce.Do(func() { envDflt = chain.NewEnv(chain.Options{}) })
 	return envDflt
 }
 
-// TestReplay replays $VERIF_REPLAY without rapid. Exit status: failing test = the case still violates.
-func TestReplay(t *testing.T) {
-	p := os.Getenv("VERIF_REPLAY")
-	if p == "" {
-		t.Skip("VERIF_REPLAY not set")
-	}
-	if err := pbt.Replay(t, p); err != nil {
-		t.Fatalf("REPLAY-VIOLATION %v", err)
-	}
-}
+func Pow2(k uint) *big.Int { return new(big.Int).Lsh(big.NewInt(1), k) }
 
-// ---- shared generators -------------------------------------------------------------------------
+func Pow10(k int) *big.Int { return new(big.Int).Exp(big.NewInt(10), big.NewInt(int64(k)), nil) }
 
-func pow2(k uint) *big.Int { return new(big.Int).Lsh(big.NewInt(1), k) }
-
-func pow10(k int) *big.Int { return new(big.Int).Exp(big.NewInt(10), big.NewInt(int64(k)), nil) }
-
-// genAmount draws a positive integer by shape with magnitudes up to 2^maxBits (see DESIGN §2.3).
-func genAmount(t *rapid.T, label string, maxBits uint) *big.Int {
-	bound := pow2(maxBits)
+// Amount draws a positive integer by shape with magnitudes up to 2^maxBits (DESIGN §2.3):
+// 45 % tiny (1..20), 20 % medium (<=10^6), 20 % large with a random bit length, 15 % boundary values.
+func Amount(t *rapid.T, label string, maxBits uint) *big.Int {
+	bound := Pow2(maxBits)
 	var v *big.Int
 	switch s := rapid.IntRange(0, 99).Draw(t, label+"/shape"); {
 	case s < 45:
@@ -53,18 +39,18 @@ func genAmount(t *rapid.T, label string, maxBits uint) *big.Int {
 		v = big.NewInt(int64(rapid.IntRange(21, 1000000).Draw(t, label+"/medium")))
 	case s < 85:
 		bits := rapid.IntRange(21, int(maxBits)).Draw(t, label+"/bits")
-		v = genBits(t, label+"/large", uint(bits))
+		v = Bits(t, label+"/large", uint(bits))
 	default:
 		k := uint(rapid.IntRange(1, int(maxBits)).Draw(t, label+"/k"))
 		switch rapid.IntRange(0, 4).Draw(t, label+"/bkind") {
 		case 0:
-			v = pow2(k)
+			v = Pow2(k)
 		case 1:
-			v = new(big.Int).Sub(pow2(k), big.NewInt(1))
+			v = new(big.Int).Sub(Pow2(k), big.NewInt(1))
 		case 2:
-			v = new(big.Int).Add(pow2(k), big.NewInt(1))
+			v = new(big.Int).Add(Pow2(k), big.NewInt(1))
 		case 3:
-			v = pow10(int(k) * 3 / 10)
+			v = Pow10(int(k) * 3 / 10)
 		default:
 			v = new(big.Int).Set(bound)
 		}
@@ -78,14 +64,13 @@ func genAmount(t *rapid.T, label string, maxBits uint) *big.Int {
 	return v
 }
 
-// genBits draws an integer with exactly `bits` bits.
-func genBits(t *rapid.T, label string, bits uint) *big.Int {
+// Bits draws an integer with exactly `bits` bits.
+func Bits(t *rapid.T, label string, bits uint) *big.Int {
 	if bits == 0 {
 		return new(big.Int)
 	}
-	v := new(big.Int)
+	v := big.NewInt(1)
 	rem := bits - 1
-	v.SetInt64(1)
 	for rem > 0 {
 		n := rem
 		if n > 32 {
@@ -99,9 +84,10 @@ func genBits(t *rapid.T, label string, bits uint) *big.Int {
 	return v
 }
 
-func toInt(b *big.Int) sdkmath.Int { return sdkmath.NewIntFromBigInt(b) }
+func ToInt(b *big.Int) sdkmath.Int { return sdkmath.NewIntFromBigInt(b) }
 
-func bigOf(s string) *big.Int {
+// BigOf parses a decimal integer (panics on garbage: replay files are trusted).
+func BigOf(s string) *big.Int {
 	v, ok := new(big.Int).SetString(s, 10)
 	if !ok {
 		panic("bad integer " + s)
@@ -109,8 +95,8 @@ func bigOf(s string) *big.Int {
 	return v
 }
 
-// genDt draws a block-time increment (nanoseconds) from 1ns to days.
-func genDt(t *rapid.T, label string) int64 {
+// Dt draws a block-time increment in nanoseconds: 1 ns … days, mostly seconds.
+func Dt(t *rapid.T, label string) int64 {
 	switch rapid.IntRange(0, 9).Draw(t, label+"/k") {
 	case 0:
 		return 1
